@@ -302,6 +302,10 @@ func (w *World) loopCtxFromBase(f *ssa.Function, body map[*ssa.BasicBlock]bool) 
 			}
 			return true
 		})
+		// BaseContext itself (exact arithmetic, the package's fixed traps)
+		if g, isG := basePtr(c.Common().Args[0]).(*ssa.Global); isG && g.Name() == "BaseContext" {
+			ok = true
+		}
 		if !ok {
 			return false
 		}
